@@ -36,6 +36,10 @@ EXPLANATION = (
     "adapter's min_size is its cost's. Paper lemmas (cusum^2 == L2 change score, S1^2/N == L2(mu=0)-L2(opt), optimal<=fixed, split "
     "never increases) connect the definitions; the static part is code == definition. NOT decided: inequalities in floating point."
 )
+# obligations added during the build phase (seeding rounds, twins, mutation analysis)
+ADDED_IN_BUILD = ' Also: (a) SPECIAL-CASE - an isinstance test of the arbitrary cost against one particular cost class is undecided on the abstract object (both arms explored); every composition an adapter singles out that way is decided with the built-in cost itself (its own fit / evaluate inlined) in every parameter mode; no such test on the pinned tree.'
+EXPLANATION = EXPLANATION + ADDED_IN_BUILD
+
 ASSUMPTIONS = [
     "Python's ast module and evaluation-order/argument-binding semantics as implemented in skverif/symex.py",
     "library model table skverif/models.py",
